@@ -208,6 +208,48 @@ def rule_fill(ctx):
         ctx.holds('R4', '_matches total: boolean array / iterable (any over members) / scalar (a == value)')
     else:
         ctx.violated('R4', fi, '_matches', '_matches must handle a boolean mask (as is), an iterable (any of the members) and a scalar (a == value): %s' % kinds)
+    # is_boolean_array: the mask test behind _matches accepts NumPy *and* DimArray masks (a.setna(a > 1)) of bool dtype, and nothing else
+    from ..rules import truth
+    fb = ctx.fn(MV + 'is_boolean_array')
+    evb = run(ctx, fb)
+    VB = P_(fb.params[0])
+    rb = [p.value for p in ret_paths(evb)]
+    if len(rb) != 1:
+        ctx.undecide('R4', 'is_boolean_array: expected a single boolean expression')
+    else:
+        table = {'bool ndarray': (True, False, True, True), 'bool DimArray': (False, True, True, True), 'int ndarray': (True, False, False, False),
+                 'float DimArray': (False, True, False, False), 'list / scalar': (False, False, None, False)}
+        okb = True
+        for inst, (is_nd, is_da, is_bool, want) in table.items():
+            def decide(atom, is_nd=is_nd, is_da=is_da, is_bool=is_bool):
+                sh = T.show(atom)
+                if atom[0] == 'call' and T.dotted(atom[1]) == 'isinstance' and atom[2][0] == VB:
+                    ty = atom[2][1]
+                    names = [T.dotted(x) for x in (ty[1] if ty[0] == 'tuple' else [ty])]
+                    r = False
+                    if any(n in ('np.ndarray', 'numpy.ndarray') for n in names):
+                        r = r or is_nd
+                    if any(n in ('DimArray', 'da.DimArray', 'AbstractDimArray') for n in names):
+                        r = r or is_da
+                    return r
+                if atom[0] == 'call' and T.call_name(atom) == 'is_DimArray' and atom[2] == (VB,):
+                    return is_da
+                if 'dtype' in sh and T.contains(atom, VB):
+                    return is_bool          # None for objects without dtype: must not be reached
+                if atom[0] == 'call' and T.dotted(atom[1]) == 'hasattr' and atom[2][:1] == (VB,):
+                    return is_nd or is_da
+                return None
+            got = truth(rb[0], decide)
+            if got is None:
+                ctx.undecide('R4', 'is_boolean_array(%s): %s not evaluable' % (inst, T.show(rb[0])[:100]))
+                okb = False
+            elif got != want:
+                ctx.violated('R4', fb, 'is_boolean_array(%s)' % inst, 'is_boolean_array answers %s for a %s (expected %s): %s' % (
+                    got, inst, want, 'a boolean DimArray mask such as `a > 1` is then iterated as a list of values by _matches' if want else 'a non-boolean array is used as a mask'),
+                    node=fb.node)
+                okb = False
+        if okb:
+            ctx.holds('R4', 'is_boolean_array: ndarray | DimArray, bool dtype only (5-row table)')
     for name in ('fillna', 'setna', 'dropna'):
         m = ctx.P.lookup(ctx.P.cls('dimarray.core.dimarraycls.DimArray'), name)
         r = ctx.P.resolve_member(m)
